@@ -231,7 +231,10 @@ def oracle(run, name, idnt, fit_state):
     rng = run.rng
     sub = sorted(rng.sample(names, 5))
     for which, nm in [("all", None), ("binary", None), ("continuous", None),
-                      ("all", sub), ("continuous", sub), ("all", sub[::-1])]:
+                      ("all", sub), ("continuous", sub), ("all", sub[::-1]),
+                      (["continuous", "binary"], None),
+                      (("continuous", "binary"), sub),
+                      (["binary", "continuous"], sub)]:
         try:
             vv, nn = feats(idnt, which_type=which, names=nm, ret_names=True)
         except BaseException as e:
@@ -290,6 +293,10 @@ def preimage(v, c):
 
 def coq_curve_case(idnt, v):
     from nanite.rate.features import IndentationFeatures as IF
+    s = idnt.fit_properties
+    if not (s.get("success", False)
+            and "contact_point" in (s.get("params_fitted") or {})):
+        return None     # every fit-dependent feature is NaN: guards case
     inst = IF(idnt)
     x, y, fit = inst.datax_apr, inst.datay_apr, inst.datafit_apr
     cp = inst.contact_point
@@ -353,6 +360,63 @@ def name_cases(run, exprs, descr):
         descr.append(f"get_feature_names({which}, {req})")
         run.case({"which": which, "names": req}, nontrivial=bool(req),
                  kind="names")
+
+
+def type_list_cases(run):
+    """which_type given as a list / tuple of types (any order): names and
+    indices are those of the union, in sorted-name order, and the indices
+    belong to the names"""
+    from nanite.rate.features import IndentationFeatures as IF
+    names = all_names()
+    rng = run.rng
+    for i in range(12 if run.tier == "quick" else 100):
+        which = rng.choice([["continuous", "binary"], ("continuous", "binary"),
+                            ["binary", "continuous"], ["continuous"],
+                            ["binary"], ("binary",)])
+        req = None if i % 3 == 0 else rng.sample(names,
+                                                 rng.randint(1, len(names)))
+        run.case({"which": list(which), "names": req}, kind="names-type-list")
+        key = f"type-list:{list(which)}:{common.sha(req)[:8]}"
+        try:
+            got, idx = IF.get_feature_names(which_type=which, names=req,
+                                            ret_indices=True)
+        except BaseException as e:
+            run.failing(SITE, key, f"get_feature_names({which}, {req}) raised"
+                        f" {type(e).__name__}: {e}", payload={"kind": "rerun"},
+                        theorem="C17_order")
+            continue
+        pool = [n for n in names if any(
+            n.startswith({"binary": "feat_bin_",
+                          "continuous": "feat_con_"}[w]) for w in which)]
+        want = sorted(n for n in pool if req is None or n in req)
+        if list(got) != want:
+            run.failing(SITE, key, f"get_feature_names({which}, {req}) "
+                        f"returns {list(got)}, not the sorted names {want}",
+                        payload={"kind": "rerun"}, theorem="C17_order")
+        elif [sorted(names)[j] for j in idx] != list(got):
+            run.failing(SITE, key + "|indices", f"get_feature_names({which},"
+                        f" {req}, ret_indices=True): indices {list(idx)} do "
+                        "not belong to the returned names",
+                        payload={"kind": "rerun"}, theorem="C17_order")
+
+
+def breakthrough(run):
+    """a curve whose force drops monotonically over the last quarter of the
+    approach (breakthrough), fitted with the contact point held fixed inside
+    the dropping part: the indentation part has no positive gradient"""
+    cols, k = c07.synthetic("hertz_para", 3, n_app=700, n_ret=200, noise=0.0)
+    f, n = cols["force"], 700
+    peak = f[int(0.75 * n)]
+    f[int(0.75 * n):n] = peak * np.linspace(1, 0.2, n - int(0.75 * n))
+    idnt = curves.make_indentation(cols, k=k)
+    with warnings.catch_warnings():
+        warnings.simplefilter("ignore")
+        idnt.apply_preprocessing(list(PIPE))
+        p = idnt.get_initial_fit_parameters(model_key="hertz_para")
+        p["contact_point"].set(value=float(idnt["tip position"][int(0.78 * n)]),
+                               vary=False)
+        idnt.fit_model(model_key="hertz_para", params_initial=p)
+    oracle(run, "synthetic:breakthrough", idnt, "fitted-fixed-cp")
 
 
 def check(run):
@@ -424,6 +488,8 @@ def check(run):
                     exprs.append(ex)
                     descr.append(f"arithmetic {name} {st}")
                     run.count("coq-arithmetic")
+    breakthrough(run)
+    type_list_cases(run)
     fits.eval_bool_cases(run, "c17_feat", exprs, descr, head=HEAD, chunk=10)
     run.rule = ("curves (synthetic over models, noise, spikes, short/long "
                 "segments; recorded good and bad) x states (fresh, "
